@@ -180,6 +180,16 @@ def extract_unqualified(paths, names):
     return sorted(found)
 
 
+def extract_generic_params(paths):
+    """names of the generic type parameters the code templates declare (`fn f<T: …>`, `impl<T: …>`)"""
+    found = set()
+    for p in paths:
+        for lit in string_literals(open(p).read()):
+            for m in re.finditer(r"(?:\bfn\s+[a-z_][a-z0-9_]*|\bimpl)\s*<\s*([A-Z][A-Za-z0-9_]*)\s*[:>,]", lit):
+                found.add(m.group(1))
+    return sorted(found)
+
+
 def extract_fn_names(paths):
     """names of the functions the code templates define (`fn <name>(` inside string literals)"""
     found = set()
@@ -220,6 +230,7 @@ def generate(repo):
         raise TranslatorError(f"unexpected default conversions {rdef}, {cdef}")
     rbases, rfixed, lfp = extract_locals([os.path.join(rs, f) for f in ("bindgen.rs", "interface.rs")])
     rfns = extract_fn_names([os.path.join(rs, f) for f in ("interface.rs", "lib.rs")])
+    rgen = extract_generic_params([os.path.join(rs, f) for f in ("bindgen.rs", "interface.rs", "lib.rs")])
     runq = extract_unqualified([os.path.join(rs, f) for f in ("bindgen.rs", "interface.rs", "lib.rs")], RUST_PRELUDE_NAMES)
     rust = (
         "/-! GENERATED by tools/gen_ident_tables.py — do not edit.  Regenerated from /repo's working tree on every\n"
@@ -232,8 +243,9 @@ def generate(repo):
         + "\n" + lean_list("fixedLocals", rfixed, "locals with a fixed name bound by `let` in the code templates of bindgen.rs / interface.rs")
         + "\n" + lean_list("unqualifiedPrelude", runq, "Rust prelude names that the code templates of crates/rust/src use WITHOUT a `::core::…` path: a user type with that name in the same module captures them")
         + "\n" + lean_list("generatedFnNames", rfns, "functions the code templates of interface.rs / lib.rs define by a fixed name (inherent methods of resource wrappers, trait items, helpers)")
+        + "\n" + lean_list("genericParams", rgen, "generic type parameters the code templates declare (`fn as_ptr<T: GuestFoo>`, …): inside such an item a user type of that name is shadowed")
         + "\nend Witverif.Generated.RustIdent\n")
-    info["rust"] = {"match_on_snake": ron, "escape_arms": len(rt), "camel_arms": len(ct), "temp_bases": rbases, "fixed_locals": len(rfixed), "unqualified_prelude": runq, "generated_fn_names": rfns,
+    info["rust"] = {"match_on_snake": ron, "escape_arms": len(rt), "camel_arms": len(ct), "temp_bases": rbases, "fixed_locals": len(rfixed), "unqualified_prelude": runq, "generated_fn_names": rfns, "generic_params": rgen,
                     "fingerprints": {"to_rust_ident": rfp, "to_upper_camel_case": cfp, "templates": lfp}}
     # ---------------- C / C++
     cc = os.path.join(repo, "crates/c/src/lib.rs")
@@ -274,7 +286,10 @@ def main():
         if old != text:
             changed.append(name)
             if "--check" not in args:
-                open(p, "w").write(text)
+                tmp = p + f".tmp{os.getpid()}"      # never expose a half-written file to a concurrent `lake build`
+                with open(tmp, "w") as f:
+                    f.write(text)
+                os.replace(tmp, p)
     info["changed"] = changed
     print(json.dumps(info))
     return 1 if ("--check" in args and changed) else 0
